@@ -796,6 +796,9 @@ class Engine:
         try:
             if finfo.is_generator:
                 ctx.yielded = []
+            if getattr(self, "semantic_decorators", None) is not None and self.semantic_decorators(finfo):
+                # the function under contract is the *decorated* function (pyvc.ext_expr)
+                raise ReturnSig(self.call_decorated(ctx, finfo, [args[p.arg] for p in all_args], {}))
             self.exec_block(ctx, finfo.node.body, env)
             result = None
             if finfo.is_generator:
@@ -1604,7 +1607,8 @@ class Engine:
         selfv = args[0] if (finfo.cls is not None and args and not finfo.is_static) else None
         if dynamic:
             finfo = self.resolve_dynamic(ctx, finfo, selfv)
-        contract = self.find_contract(finfo, selfv) if closure is None or closure.env is None else None
+        raw = getattr(closure, "raw", False)  # the undecorated body of a decorated def (pyvc.ext_expr)
+        contract = self.find_contract(finfo, selfv) if (closure is None or closure.env is None) and not raw else None
         inline_ok = finfo.qualname in self.reg.inline
         verifying_self = finfo.qualname == ctx.func.split("[")[0].split("<")[0]
         if contract is not None and not inline_ok:
@@ -1616,8 +1620,11 @@ class Engine:
                 return self.dispatch_inline(ctx, finfo, ov, selfv, args, kwargs)
         nested = closure is not None and closure.env is not None
         private_helper = finfo.cls is not None and finfo.name.startswith("_") and not finfo.name.startswith("__")
+        if not raw and not nested and getattr(self, "semantic_decorators", None) is not None \
+                and self.semantic_decorators(finfo):
+            return self.call_decorated(ctx, finfo, args, kwargs)
         if not (nested or inline_ok or private_helper or finfo.is_property or isinstance(finfo.node, ast.Lambda)
-                or finfo.qualname in self.reg.inline):
+                or finfo.qualname in self.reg.inline or raw):
             raise EngineLimit("call of %s: no contract and not declared inlinable" % finfo.qualname)
         return self.inline_call(ctx, finfo, args, kwargs, closure)
 
